@@ -51,7 +51,7 @@ pub const LANGS: &[Lang] = &[
         line_comment_eats_newline: &[],
     },
     Lang { id: "c", line: &["//"], block: Some(("/*", "*/")), nests: false, star: true, trailing_line: true, code: C_CODE, inline_code: C_INLINE, decoys: C_DECOY, header: "", footer: "", markdown: false, line_comment_eats_newline: &[] },
-    Lang { id: "cpp", line: &["//"], block: Some(("/*", "*/")), nests: false, star: true, trailing_line: true, code: &["int a{n} = {n};", "void f{n}();", "class K{n} { public: int x; };", "namespace n{n} { int y; }"], inline_code: C_INLINE, decoys: &["const char *d{n} = \"{}\";", "const char *r{n} = R\"({})\";"], header: "", footer: "", markdown: false, line_comment_eats_newline: &[] },
+    Lang { id: "cpp", line: &["//"], block: Some(("/*", "*/")), nests: false, star: true, trailing_line: true, code: &["int a{n} = {n};", "void f{n}();", "class K{n} { public: int x; };", "namespace n{n} { int y; }"], inline_code: C_INLINE, decoys: &["const char *d{n} = \"{}\";", "const char *r{n} = R\"({})\";", "const char *q{n} = R\"(5\" // {})\";"], header: "", footer: "", markdown: false, line_comment_eats_newline: &[] },
     Lang {
         id: "c_sharp",
         line: &["//", "///"],
